@@ -6,6 +6,12 @@ BASELINE = "cd /repo && cargo test --workspace --no-fail-fast --offline"
 
 # property id -> (technique, level text, level note, design ref)
 CLAIMED = {
+    "C02": (
+        "runtime monitor: metamorphic round-trip oracle (parse, serialise, re-parse, compare three views, fixed point) over corpus, mutated and re-spelled inputs",
+        "Exploration: for every input the library accepts (corpus messages, all single structural mutations, per-field spelling variants, LF/CRLF, full envelopes; every corpus field content and its variants through every field type of the same number, with and without option letter) the monitor re-parses the library's own output and compares Debug, JSON and re-serialisation; held = no unlisted difference on the executions observed.",
+        "Spec-free oracle: the library is compared with itself, so it cannot demand more than the statement. Covers only inputs the workload produces.",
+        "DESIGN.md section 3, C02",
+    ),
     "C07": (
         "runtime monitor: catch_unwind + panic-hook over all public entry points on hostile/mutated inputs; CPU-time size ramps",
         "Exploration: every public parse / validate / serialise / JSON / error-rendering entry point is executed under a panic monitor on corpus-derived, systematically and randomly mutated inputs (non-ASCII, truncation, structure characters, size ramps); held = no panic/timeout outside the listed known findings on the executions observed.",
